@@ -393,7 +393,7 @@ class ApalacheResult:
 
 
 def run_apalache(module: str, *, init: str, inv: str, length: int, timeout: float = 900,
-                 subdir: str = "apalache") -> ApalacheResult:
+                 subdir: str = "apalache", cinit: str | None = None) -> ApalacheResult:
     """apalache-mc check --init=<init> --inv=<inv> --length=<length> on spec/<subdir>/<module>.tla.
     Used for inductive-invariant obligations (Init => Inv at length 0; IndInit /\\ Next => Inv' at length 1).
     Neither ok nor error (timeout, type error, crash) is a machinery failure: TlcError."""
@@ -401,7 +401,7 @@ def run_apalache(module: str, *, init: str, inv: str, length: int, timeout: floa
     out_dir = tempfile.mkdtemp(prefix="apa-")
     try:
         cmd = ["apalache-mc", "check", f"--init={init}", f"--inv={inv}", f"--length={length}",
-               f"--out-dir={out_dir}", f"{module}.tla"]
+               f"--out-dir={out_dir}"] + ([f"--cinit={cinit}"] if cinit else []) + [f"{module}.tla"]
         e = dict(os.environ)
         e.setdefault("JVM_ARGS", "-Xmx4g")
         try:
